@@ -36,7 +36,7 @@ GATES = [
 
 def rule_cell(facts):
     r = RuleResult("C16-CELL", "functions returning references obtained through UnsafeCell::get from &self are `unsafe fn`", floor=4)
-    for rec in facts.all_fns(["glaredb_core", "glaredb_ext_parquet"]):
+    for rec in facts.all_fns(["glaredb_core", "glaredb_ext_parquet"], contains="UnsafeCell"):
         if "UnsafeCell" not in str(rec["bbs"]) or rec["dk"] == "Closure":
             continue
         fn = Fn(rec)
@@ -60,7 +60,7 @@ def rule_cell(facts):
 def rule_atomic(facts):
     r = RuleResult("C16-ATOMIC", "`remaining*` hand-off counters: RMW ≥ Release, load ≥ Acquire", floor=6)
     other = 0
-    for rec in facts.all_fns(["glaredb_core"]):
+    for rec in facts.all_fns(["glaredb_core"], contains="atomic::Atomic"):
         if "atomic::Atomic" not in str(rec["bbs"]) or "testutil" in rec["id"]:
             continue
         fn = Fn(rec)
@@ -315,7 +315,7 @@ def rule_readwidth(facts):
     instantiation whose two widths differ reads past the end of the page buffer after a fraction of the values."""
     r = RuleResult("C16-READWIDTH", "every instantiation of the unchecked primitive value reader pairs a storage type and a Parquet physical type of the same byte width", floor=4)
     seen = {}
-    for rec in facts.all_fns(["glaredb_ext_parquet"]):
+    for rec in facts.all_fns(["glaredb_ext_parquet"], contains="PrimitiveValueReader<"):
         if "PrimitiveValueReader<" not in str(rec["bbs"]) or "::tests::" in rec["id"] or "testutil" in rec["id"]:
             continue
         fn = Fn(rec)
